@@ -519,6 +519,79 @@ Section World.
     right. destruct (step_userinfo_accept _ _ _ _ _ H) as (rec & Hrec & Hc' & _). eauto.
   Qed.
 
+  Lemma step_refresh_shape c st r now c' out :
+    step_refresh lhash c st r now = (c', out) ->
+    c' = c \/ exists rec stored, db_get (cl_db c) st = Ok rec /\ out = Ok stored /\
+                c' = mkClient (cl_cfg c) (db_update (cl_db c) st stored) (cl_map c).
+  Proof.
+    unfold step_refresh. intro H.
+    destruct (db_get (cl_db c) st) as [rec| |] eqn:Erec; try (left; pair_same H).
+    destruct (assoc (PS "refresh_token") rec) as [[| | |[|x0 s0]| | |]|]; try (left; pair_same H).
+    destruct (r_params r); [left; pair_same H|].
+    destruct (from_dict token_resp_params _ []) as [[|x d]| |]; try (left; pair_same H).
+    destruct (has_key (PS "error") (x :: d)); [left; pair_same H|].
+    destruct (token_response_verify lhash _ _ _ now) as [d1| |]; try (left; pair_same H).
+    destruct (refresh_bound c st rec d1) as [[]| |]; try (left; pair_same H).
+    destruct (with_expires_at _ now) as [stored| |]; try (left; pair_same H).
+    right. inversion H; subst. exists rec, stored. auto.
+  Qed.
+
+  Lemma step_refresh_reject c st r now c' out :
+    step_refresh lhash c st r now = (c', out) -> (forall d, out <> Ok d) -> c' = c.
+  Proof.
+    intros H Hno. apply step_refresh_shape in H as [->|(rec & stored & _ & -> & _)]; auto.
+    exfalso. eapply Hno; reflexivity.
+  Qed.
+
+  (* what the checks of a refresh response establish about a verified ID Token it carries *)
+  Lemma refresh_bound_inv c st rec d1 idt :
+    refresh_bound c st rec d1 = Ok tt -> assoc (verified_name (PS "id_token")) d1 = Some (VDict idt) ->
+    (forall n, assoc (PS "nonce") idt = Some (VStr n) -> assoc n (cl_map c) = Some st) /\
+    (forall before s, assoc (verified_name (PS "id_token")) rec = Some (VDict before) ->
+                      assoc (PS "sub") before = Some (VStr s) -> assoc (PS "sub") idt = Some (VStr s)).
+  Proof.
+    unfold refresh_bound. intros H Hv. rewrite Hv in H.
+    apply bind_ok in H as ([] & Hsub & Hn). split.
+    - intros n En. rewrite En in Hn. destruct (assoc n (cl_map c)) as [s|]; try discriminate.
+      destruct (str_eqb s st) eqn:E; try discriminate. apply str_eqb_eq in E. congruence.
+    - intros before s Hb Hs. rewrite Hb, Hs in Hsub.
+      destruct (assoc (PS "sub") idt) as [v|]; cbn in Hsub; try discriminate.
+      destruct (pyval_eqb v (VStr s)) eqn:E; try discriminate.
+      apply pyval_eqb_vstr_r in E. congruence.
+  Qed.
+
+  (* an accepted refresh response: recorded under the state of the request; an ID Token in it was verified like
+     the ID Token of a token response, its nonce (when it has one) is bound to this very state, its subject is
+     the subject of the ID Token the session already had *)
+  Lemma step_refresh_accept c st r now c' stored :
+    step_refresh lhash c st r now = (c', Ok stored) ->
+    exists rec rt, db_get (cl_db c) st = Ok rec /\ assoc (PS "refresh_token") rec = Some (VStr rt) /\
+      c' = mkClient (cl_cfg c) (db_update (cl_db c) st stored) (cl_map c) /\
+      (forall v, assoc (verified_name (PS "id_token")) stored = Some v ->
+         exists t vd, r_idt r = Some t /\ v = VDict vd /\
+           verify_id_token lhash (svc_kwargs (cl_cfg c)) false None None t now = Ok vd /\
+           (forall n, assoc (PS "nonce") vd = Some (VStr n) -> assoc n (cl_map c) = Some st) /\
+           (forall before s, assoc (verified_name (PS "id_token")) rec = Some (VDict before) ->
+                             assoc (PS "sub") before = Some (VStr s) -> assoc (PS "sub") vd = Some (VStr s))).
+  Proof.
+    unfold step_refresh. intro H.
+    destruct (db_get (cl_db c) st) as [rec| |] eqn:Erec; try (pair_absurd H).
+    destruct (assoc (PS "refresh_token") rec) as [[| | |[|x0 s0]| | |]|] eqn:Ert; try (pair_absurd H).
+    destruct (r_params r); [pair_absurd H|].
+    destruct (from_dict token_resp_params _ []) as [[|x d]| |]; try (pair_absurd H).
+    destruct (has_key (PS "error") (x :: d)); [pair_absurd H|].
+    destruct (token_response_verify lhash _ _ _ now) as [d1| |] eqn:Hv; try (pair_absurd H).
+    destruct (refresh_bound c st rec d1) as [[]| |] eqn:Hb; try (pair_absurd H).
+    destruct (with_expires_at _ now) as [s0'| |] eqn:Ew; try (pair_absurd H).
+    inversion H; subst c' s0'. exists rec, (x0 :: s0). repeat split; auto.
+    intros v Hv'. destruct (token_response_verify_inv lhash _ _ _ _ _ Hv) as (_ & Hver).
+    assert (Hd1 : assoc (verified_name (PS "id_token")) d1 = Some v)
+      by (erewrite <- stored_assoc; eauto using key_not_expires_ver).
+    destruct (Hver v Hd1) as (t & vd & Ht & -> & Hvd).
+    destruct (refresh_bound_inv _ _ _ _ _ Hb Hd1) as (Hn & Hs).
+    exists t, vd. repeat split; auto.
+  Qed.
+
   (* ---- worlds ---- *)
   Lemma w_set_same (w : list (pystr * client)) i c : assoc i w = Some c -> w_set w i c = w.
   Proof. apply aset_same_id. Qed.
@@ -555,7 +628,7 @@ Section World.
   Theorem step_frame_db w o w' out j s :
     step lhash w o = (w', out) -> op_mentions o s = false -> rec_of w' j s = rec_of w j s.
   Proof.
-    intros H Hm. destruct o as [i st nonce req|i r now|i st r now|i st u|st r now]; cbn [step op_mentions] in *.
+    intros H Hm. destruct o as [i st nonce req|i r now|i st r now|i st u|st r now|i st r now|st r now|st u]; cbn [step op_mentions] in *.
     - destruct (assoc i w) as [c|] eqn:Ei; inversion H; subst; auto.
       apply (rec_of_w_set _ _ c); auto. cbn [step_begin cl_db]. apply assoc_aset_other. apply neq_of_eqb in Hm. congruence.
     - apply on_client_inv in H as [(_ & -> & _)|(c & c' & Hi & Hf & ->)]; auto.
@@ -575,13 +648,27 @@ Section World.
       apply (rec_of_w_set _ _ c); auto.
       apply step_token_shape in Hf as [->|(rec & stored & _ & _ & _ & Hdb & _)]; auto.
       rewrite Hdb. apply db_update_other. apply neq_of_eqb in Hm. exact Hm.
+    - apply on_client_inv in H as [(_ & -> & _)|(c & c' & Hi & Hf & ->)]; auto.
+      apply (rec_of_w_set _ _ c); auto.
+      apply step_refresh_shape in Hf as [->|(rec & stored & _ & _ & ->)]; auto.
+      cbn [cl_db]. apply db_update_other. apply neq_of_eqb in Hm. exact Hm.
+    - destruct (state2issuer w st) as [[| | |i| | |]|]; try (inversion H; subst; reflexivity).
+      apply on_client_inv in H as [(_ & -> & _)|(c & c' & Hi & Hf & ->)]; auto.
+      apply (rec_of_w_set _ _ c); auto.
+      apply step_refresh_shape in Hf as [->|(rec & stored & _ & _ & ->)]; auto.
+      cbn [cl_db]. apply db_update_other. apply neq_of_eqb in Hm. exact Hm.
+    - destruct (state2issuer w st) as [[| | |i| | |]|]; try (inversion H; subst; reflexivity).
+      apply on_client_inv in H as [(_ & -> & _)|(c & c' & Hi & Hf & ->)]; auto.
+      apply (rec_of_w_set _ _ c); auto.
+      apply step_userinfo_shape in Hf as [->|(rec & d & _ & _ & ->)]; auto.
+      cbn [cl_db]. apply db_update_other. apply neq_of_eqb in Hm. exact Hm.
   Qed.
 
   (* ... and the key -> state binding of every key it cannot bind *)
   Theorem step_frame_map w o w' out j k :
     step lhash w o = (w', out) -> op_may_bind o k = false -> map_of w' j k = map_of w j k.
   Proof.
-    intros H Hm. destruct o as [i st nonce req|i r now|i st r now|i st u|st r now]; cbn [step op_may_bind] in *.
+    intros H Hm. destruct o as [i st nonce req|i r now|i st r now|i st u|st r now|i st r now|st r now|st u]; cbn [step op_may_bind] in *.
     - destruct (assoc i w) as [c|] eqn:Ei; inversion H; subst; auto.
       apply (map_of_w_set _ _ c); auto. cbn [step_begin cl_map]. apply assoc_aset_other. apply neq_of_eqb in Hm. congruence.
     - apply on_client_inv in H as [(_ & -> & _)|(c & c' & Hi & Hf & ->)]; auto.
@@ -599,6 +686,17 @@ Section World.
       apply (map_of_w_set _ _ c); auto.
       apply step_token_shape in Hf as [->|(rec & stored & _ & _ & _ & _ & [->|(sub & t & Ht & Hsub & _ & ->)])]; auto.
       rewrite Ht in Hm. apply assoc_aset_other. intro E. subst sub. congruence.
+    - apply on_client_inv in H as [(_ & -> & _)|(c & c' & Hi & Hf & ->)]; auto.
+      apply (map_of_w_set _ _ c); auto.
+      apply step_refresh_shape in Hf as [->|(rec & stored & _ & _ & ->)]; auto.
+    - destruct (state2issuer w st) as [[| | |i| | |]|]; try (inversion H; subst; reflexivity).
+      apply on_client_inv in H as [(_ & -> & _)|(c & c' & Hi & Hf & ->)]; auto.
+      apply (map_of_w_set _ _ c); auto.
+      apply step_refresh_shape in Hf as [->|(rec & stored & _ & _ & ->)]; auto.
+    - destruct (state2issuer w st) as [[| | |i| | |]|]; try (inversion H; subst; reflexivity).
+      apply on_client_inv in H as [(_ & -> & _)|(c & c' & Hi & Hf & ->)]; auto.
+      apply (map_of_w_set _ _ c); auto.
+      apply step_userinfo_shape in Hf as [->|(rec & d & _ & _ & ->)]; auto.
   Qed.
 
   (* an operation only ever touches the client it is executed on *)
@@ -608,11 +706,16 @@ Section World.
     intros H Ht.
     assert (Hset : forall i c', i <> j -> assoc j (w_set w i c') = assoc j w)
       by (intros; apply assoc_aset_other; auto).
-    destruct o as [i st nonce req|i r now|i st r now|i st u|st r now]; cbn [step op_target] in *.
+    destruct o as [i st nonce req|i r now|i st r now|i st u|st r now|i st r now|st r now|st u]; cbn [step op_target] in *.
     - destruct (assoc i w); inversion H; subst; auto. apply Hset. congruence.
     - apply on_client_inv in H as [(_ & -> & _)|(c & c' & _ & _ & ->)]; auto. apply Hset. congruence.
     - apply on_client_inv in H as [(_ & -> & _)|(c & c' & _ & _ & ->)]; auto. apply Hset. congruence.
     - apply on_client_inv in H as [(_ & -> & _)|(c & c' & _ & _ & ->)]; auto. apply Hset. congruence.
+    - destruct (state2issuer w st) as [[| | |i| | |]|]; try (inversion H; subst; reflexivity).
+      apply on_client_inv in H as [(_ & -> & _)|(c & c' & _ & _ & ->)]; auto. apply Hset. congruence.
+    - apply on_client_inv in H as [(_ & -> & _)|(c & c' & _ & _ & ->)]; auto. apply Hset. congruence.
+    - destruct (state2issuer w st) as [[| | |i| | |]|]; try (inversion H; subst; reflexivity).
+      apply on_client_inv in H as [(_ & -> & _)|(c & c' & _ & _ & ->)]; auto. apply Hset. congruence.
     - destruct (state2issuer w st) as [[| | |i| | |]|]; try (inversion H; subst; reflexivity).
       apply on_client_inv in H as [(_ & -> & _)|(c & c' & _ & _ & ->)]; auto. apply Hset. congruence.
   Qed.
@@ -621,7 +724,7 @@ Section World.
   Theorem step_reject w o w' out :
     step lhash w o = (w', out) -> (forall d, out <> Ok d) -> w' = w.
   Proof.
-    intros H Hno. destruct o as [i st nonce req|i r now|i st r now|i st u|st r now]; cbn [step] in *.
+    intros H Hno. destruct o as [i st nonce req|i r now|i st r now|i st u|st r now|i st r now|st r now|st u]; cbn [step] in *.
     - destruct (assoc i w); inversion H; subst; auto. exfalso. eapply Hno; reflexivity.
     - apply on_client_inv in H as [(_ & -> & _)|(c & c' & Hi & Hf & ->)]; auto.
       apply step_authz_reject in Hf; auto. subst. apply w_set_same; auto.
@@ -632,6 +735,14 @@ Section World.
     - destruct (state2issuer w st) as [[| | |i| | |]|]; try (inversion H; subst; reflexivity).
       apply on_client_inv in H as [(_ & -> & _)|(c & c' & Hi & Hf & ->)]; auto.
       apply step_token_reject in Hf; auto. subst. apply w_set_same; auto.
+    - apply on_client_inv in H as [(_ & -> & _)|(c & c' & Hi & Hf & ->)]; auto.
+      apply step_refresh_reject in Hf; auto. subst. apply w_set_same; auto.
+    - destruct (state2issuer w st) as [[| | |i| | |]|]; try (inversion H; subst; reflexivity).
+      apply on_client_inv in H as [(_ & -> & _)|(c & c' & Hi & Hf & ->)]; auto.
+      apply step_refresh_reject in Hf; auto. subst. apply w_set_same; auto.
+    - destruct (state2issuer w st) as [[| | |i| | |]|]; try (inversion H; subst; reflexivity).
+      apply on_client_inv in H as [(_ & -> & _)|(c & c' & Hi & Hf & ->)]; auto.
+      apply step_userinfo_reject in Hf; auto. subst. apply w_set_same; auto.
   Qed.
 
   (* the nonce binding of a pending flow survives every operation that does not start a flow drawing that nonce *)
@@ -671,7 +782,7 @@ Section World.
     assert (Hsame : forall i c c', assoc i w = Some c -> cl_map c' = cl_map c -> map_of (w_set w i c') j k = Some s').
     { intros i c c' Hi Hmap. apply (map_of_w_set_some _ _ c); auto. intros ->.
       unfold map_of in Hm. rewrite Hi in Hm. rewrite Hmap. exact Hm. }
-    destruct o as [i st nonce req|i r now|i st r now|i st u|st r now]; cbn [step op_draws_nonce] in *.
+    destruct o as [i st nonce req|i r now|i st r now|i st u|st r now|i st r now|st r now|st u]; cbn [step op_draws_nonce] in *.
     - destruct (assoc i w) as [c|] eqn:Ei; inversion H; subst; auto.
       apply (map_of_w_set_some _ _ c); auto. intros ->. cbn [step_begin cl_map].
       unfold map_of in Hm. rewrite Ei in Hm. rewrite assoc_aset_other; auto. apply neq_of_eqb in Hd. congruence.
@@ -682,6 +793,14 @@ Section World.
       apply (Hsame _ c); auto. apply step_userinfo_shape in Hf as [->|(rec0 & d & _ & _ & ->)]; auto.
     - destruct (state2issuer w st) as [[| | |i| | |]|]; try (inversion H; subst; exact Hm).
       apply on_client_inv in H as [(_ & -> & _)|(c & c' & Hi & Hf & ->)]; auto. eapply Htok; eauto.
+    - apply on_client_inv in H as [(_ & -> & _)|(c & c' & Hi & Hf & ->)]; auto.
+      apply (Hsame _ c); auto. apply step_refresh_shape in Hf as [->|(rec0 & d & _ & _ & ->)]; auto.
+    - destruct (state2issuer w st) as [[| | |i| | |]|]; try (inversion H; subst; exact Hm).
+      apply on_client_inv in H as [(_ & -> & _)|(c & c' & Hi & Hf & ->)]; auto.
+      apply (Hsame _ c); auto. apply step_refresh_shape in Hf as [->|(rec0 & d & _ & _ & ->)]; auto.
+    - destruct (state2issuer w st) as [[| | |i| | |]|]; try (inversion H; subst; exact Hm).
+      apply on_client_inv in H as [(_ & -> & _)|(c & c' & Hi & Hf & ->)]; auto.
+      apply (Hsame _ c); auto. apply step_userinfo_shape in Hf as [->|(rec0 & d & _ & _ & ->)]; auto.
   Qed.
 
   (* ---- histories ---- *)
@@ -732,7 +851,7 @@ Section World.
     intros Hinv H.
     assert (Hweak : forall w0, states_issued w0 L -> states_issued w0 (L ++ issued [o])).
     { intros w0 H0 i c st Hi Hk. apply in_or_app. left. eapply H0; eauto. }
-    destruct o as [i st nonce req|i r now|i st r now|i st u|st r now]; cbn [step] in *.
+    destruct o as [i st nonce req|i r now|i st r now|i st u|st r now|i st r now|st r now|st u]; cbn [step] in *.
     - destruct (assoc i w) as [c|] eqn:Ei; inversion H; subst; [|apply Hweak; exact Hinv].
       intros j cj s Hj Hk. cbn [issued]. unfold w_set in Hj. destruct (str_eqb i j) eqn:E.
       + apply str_eqb_eq in E. subst j. rewrite assoc_aset_same in Hj. inversion Hj; subst cj.
@@ -759,6 +878,20 @@ Section World.
       eapply states_issued_w_set; eauto.
       apply step_token_shape in Hf as [->|(rec & stored & Hrec & _ & _ & Hdb & _)]; auto.
       rewrite Hdb. intros s. eapply has_key_db_update; eauto.
+    - apply Hweak. apply on_client_inv in H as [(_ & -> & _)|(c & c' & Hi & Hf & ->)]; auto.
+      eapply states_issued_w_set; eauto.
+      apply step_refresh_shape in Hf as [->|(rec & d & Hrec & _ & ->)]; auto.
+      cbn [cl_db]. intros s. eapply has_key_db_update; eauto.
+    - apply Hweak. destruct (state2issuer w st) as [[| | |i| | |]|]; try (inversion H; subst; exact Hinv).
+      apply on_client_inv in H as [(_ & -> & _)|(c & c' & Hi & Hf & ->)]; auto.
+      eapply states_issued_w_set; eauto.
+      apply step_refresh_shape in Hf as [->|(rec & d & Hrec & _ & ->)]; auto.
+      cbn [cl_db]. intros s. eapply has_key_db_update; eauto.
+    - apply Hweak. destruct (state2issuer w st) as [[| | |i| | |]|]; try (inversion H; subst; exact Hinv).
+      apply on_client_inv in H as [(_ & -> & _)|(c & c' & Hi & Hf & ->)]; auto.
+      eapply states_issued_w_set; eauto.
+      apply step_userinfo_shape in Hf as [->|(rec & d & Hrec & _ & ->)]; auto.
+      cbn [cl_db]. intros s. eapply has_key_db_update; eauto.
   Qed.
 
   Lemma issued_app a b : issued (a ++ b) = (issued a ++ issued b)%list.
@@ -868,6 +1001,170 @@ Section WorldAccept.
   Qed.
 
 End WorldAccept.
+
+(* ================================================================================================
+   back-channel responses (token response of a code exchange, refresh response, user info): the key under
+   which they are recorded is the state the relying party made the REQUEST for - for every content of the
+   response, in particular for every `state` / iss / client_id / nonce member it may carry (C09)
+   ================================================================================================ *)
+Section Backchannel.
+  Variable lhash : pystr -> pystr -> pystr.
+
+  Lemma db_get_assoc db k rec : db_get db k = Ok rec -> assoc k db = Some rec.
+  Proof. unfold db_get. destruct (assoc k db) as [[|x r]|]; intro H; inversion H; reflexivity. Qed.
+
+  (* a client step made for st: refused and nothing changed, or accepted and the record of st updated with what
+     is handed back (m: the key map afterwards) *)
+  Definition upd_at (c : client) (st : pystr) (c' : client) (out : res record) : Prop :=
+    ((forall d, out <> Ok d) /\ c' = c) \/
+    exists rec stored m, db_get (cl_db c) st = Ok rec /\ out = Ok stored /\
+      c' = mkClient (cl_cfg c) (db_update (cl_db c) st stored) m.
+
+  Lemma token_upd c st r now c' out : step_token lhash c st r now = (c', out) -> upd_at c st c' out.
+  Proof.
+    intro H. destruct out as [stored| |].
+    - right. destruct (step_token_accept lhash _ _ _ _ _ _ H) as (rec & Hrec & Hcfg & Hdb & _).
+      exists rec, stored, (cl_map c'). repeat split; auto. destruct c'; cbn in *; subst; reflexivity.
+    - left. split; [intros d; discriminate|]. eapply step_token_reject; eauto. intros d; discriminate.
+    - left. split; [intros d; discriminate|]. eapply step_token_reject; eauto. intros d; discriminate.
+  Qed.
+  Lemma refresh_upd c st r now c' out : step_refresh lhash c st r now = (c', out) -> upd_at c st c' out.
+  Proof.
+    intro H. destruct out as [stored| |].
+    - right. destruct (step_refresh_accept lhash _ _ _ _ _ _ H) as (rec & rt & Hrec & _ & Hc' & _).
+      exists rec, stored, (cl_map c). auto.
+    - left. split; [intros d; discriminate|]. eapply step_refresh_reject; eauto. intros d; discriminate.
+    - left. split; [intros d; discriminate|]. eapply step_refresh_reject; eauto. intros d; discriminate.
+  Qed.
+  Lemma userinfo_upd c st u c' out : step_userinfo c st u = (c', out) -> upd_at c st c' out.
+  Proof.
+    intro H. destruct out as [d| |].
+    - right. destruct (step_userinfo_accept _ _ _ _ _ H) as (rec & Hrec & Hc' & _).
+      exists rec, d, (cl_map c). auto.
+    - left. split; [intros d; discriminate|]. eapply step_userinfo_reject; eauto. intros d; discriminate.
+    - left. split; [intros d; discriminate|]. eapply step_userinfo_reject; eauto. intros d; discriminate.
+  Qed.
+
+  Definition world_upd (w : list (pystr * client)) (tgt : option pystr) (st : pystr)
+             (w' : list (pystr * client)) (out : res record) : Prop :=
+    ((forall d, out <> Ok d) /\ w' = w) \/
+    exists i c rec stored m, tgt = Some i /\ assoc i w = Some c /\ db_get (cl_db c) st = Ok rec /\
+      out = Ok stored /\ w' = w_set w i (mkClient (cl_cfg c) (db_update (cl_db c) st stored) m).
+
+  Lemma on_client_upd w i f st w' out :
+    on_client w i f = (w', out) -> (forall c c' o, f c = (c', o) -> upd_at c st c' o) ->
+    world_upd w (Some i) st w' out.
+  Proof.
+    intros H Hf. apply on_client_inv in H as [(_ & -> & ->)|(c & c' & Hi & Hfc & ->)].
+    - left. split; [intros d; discriminate|reflexivity].
+    - destruct (Hf _ _ _ Hfc) as [(Hno & ->)|(rec & stored & m & Hrec & -> & ->)].
+      + left. split; auto. apply w_set_same; auto.
+      + right. exists i, c, rec, stored, m. auto.
+  Qed.
+
+  (* THE KEY OF A BACK-CHANNEL RESPONSE: whatever the response contains, the operation is refused and the
+     world is unchanged, or it is accepted and exactly one thing happens to the state stores: the record of the
+     state the request was made for, in the client the request was made by, is updated with what is handed back *)
+  Theorem world_backchannel_key w o st w' out :
+    backchannel_of o = Some st -> step lhash w o = (w', out) -> world_upd w (op_target w o) st w' out.
+  Proof.
+    intros Hb H.
+    destruct o as [i s0 nonce req|i r now|i s0 r now|i s0 u|s0 r now|i s0 r now|s0 r now|s0 u];
+      cbn [backchannel_of] in Hb; inversion Hb; subst s0; cbn [step op_target] in *.
+    - eapply on_client_upd; [exact H|]. intros c0 c1 o0 Hc. eapply token_upd; exact Hc.
+    - eapply on_client_upd; [exact H|]. intros c0 c1 o0 Hc. eapply userinfo_upd; exact Hc.
+    - destruct (state2issuer w st) as [[| | |i| | |]|];
+        try (left; inversion H; subst; split; [intros ?; discriminate|reflexivity]).
+      eapply on_client_upd; [exact H|]. intros c0 c1 o0 Hc. eapply token_upd; exact Hc.
+    - eapply on_client_upd; [exact H|]. intros c0 c1 o0 Hc. eapply refresh_upd; exact Hc.
+    - destruct (state2issuer w st) as [[| | |i| | |]|];
+        try (left; inversion H; subst; split; [intros ?; discriminate|reflexivity]).
+      eapply on_client_upd; [exact H|]. intros c0 c1 o0 Hc. eapply refresh_upd; exact Hc.
+    - destruct (state2issuer w st) as [[| | |i| | |]|];
+        try (left; inversion H; subst; split; [intros ?; discriminate|reflexivity]).
+      eapply on_client_upd; [exact H|]. intros c0 c1 o0 Hc. eapply userinfo_upd; exact Hc.
+  Qed.
+
+  (* ... and so: an accepted back-channel response is recorded under the state of the request, in the client
+     that made the request; no other record of any client changes - whatever members the response carries *)
+  Theorem world_backchannel_recorded w o st w' stored :
+    backchannel_of o = Some st -> step lhash w o = (w', Ok stored) ->
+    exists i rec, op_target w o = Some i /\ rec_of w i st = Some rec /\
+      rec_of w' i st = Some (dict_update rec stored) /\
+      (forall j s, j <> i \/ s <> st -> rec_of w' j s = rec_of w j s).
+  Proof.
+    intros Hb H.
+    destruct (world_backchannel_key _ _ _ _ _ Hb H) as [(Hno & _)|(i & c & rec & st0 & m & Ht & Hi & Hrec & Ho & ->)].
+    - exfalso. eapply Hno; reflexivity.
+    - inversion Ho; subst st0. exists i, rec. split; auto. apply db_get_assoc in Hrec.
+      split; [unfold rec_of; rewrite Hi; exact Hrec|].
+      split.
+      + unfold rec_of, w_set. rewrite assoc_aset_same. cbn [cl_db]. rewrite db_update_same, Hrec. reflexivity.
+      + intros j s Hjs. unfold rec_of, w_set. destruct (str_eqb i j) eqn:E.
+        * apply str_eqb_eq in E. subst j. rewrite assoc_aset_same, Hi. cbn [cl_db].
+          apply db_update_other. destruct Hjs; congruence.
+        * rewrite assoc_aset_other; auto. intro; subst. rewrite str_eqb_refl in E. discriminate.
+  Qed.
+
+  (* the record of the state a response NAMES (its `state` member), when that is not the state of the request,
+     is untouched: accepted or refused, in every client *)
+  Theorem world_backchannel_named_state_untouched w o st w' out s j :
+    backchannel_of o = Some st -> step lhash w o = (w', out) ->
+    has_entry (PS "state") (VStr s) (backchannel_members o) = true -> s <> st ->
+    rec_of w' j s = rec_of w j s.
+  Proof.
+    intros Hb H _ Hne. eapply step_frame_db; eauto.
+    destruct o; cbn [backchannel_of] in Hb; inversion Hb; subst; cbn [op_mentions];
+      (destruct (str_eqb st s) eqn:E; [apply str_eqb_eq in E; congruence|reflexivity]).
+  Qed.
+
+  (* the nonce binding of a code exchange, whichever way the client was found *)
+  Theorem world_routed_token_nonce w st r now w' stored v :
+    step lhash w (ORoutedToken st r now) = (w', Ok stored) ->
+    assoc (verified_name (PS "id_token")) stored = Some v ->
+    exists i vd n, op_target w (ORoutedToken st r now) = Some i /\ v = VDict vd /\
+      assoc (PS "nonce") vd = Some (VStr n) /\ map_of w i n = Some st.
+  Proof.
+    intros H Hv. cbn [step op_target] in *.
+    destruct (state2issuer w st) as [[| | |i| | |]|]; try (inversion H; fail).
+    apply on_client_inv in H as [(_ & _ & Hout)|(c & c' & Hi & Hf & Hw)]; [discriminate|].
+    destruct (step_token_accept lhash _ _ _ _ _ _ Hf) as (rec & _ & _ & _ & Hver & _).
+    destruct (Hver v Hv) as (t & vd & n & sub & _ & -> & _ & Hn & Hmap & _).
+    exists i, vd, n. repeat split; auto. unfold map_of. rewrite Hi. exact Hmap.
+  Qed.
+
+  (* the ID Token of a refresh response is bound to the session that is refreshed: a nonce in it is bound, in the
+     client that asked, to the very state the refresh was made for (so the ID Token of another pending or finished
+     flow is refused, and by step_reject nothing changes); its subject is the subject of the ID Token the session
+     already has *)
+  Theorem world_refresh_idtoken_bound w o st w' stored v :
+    refresh_of o = Some st -> step lhash w o = (w', Ok stored) ->
+    assoc (verified_name (PS "id_token")) stored = Some v ->
+    exists i vd rec, op_target w o = Some i /\ v = VDict vd /\ rec_of w i st = Some rec /\
+      (forall n, assoc (PS "nonce") vd = Some (VStr n) -> map_of w i n = Some st) /\
+      (forall before s, assoc (verified_name (PS "id_token")) rec = Some (VDict before) ->
+                        assoc (PS "sub") before = Some (VStr s) -> assoc (PS "sub") vd = Some (VStr s)).
+  Proof.
+    intros Hr H Hv.
+    assert (Hcl : forall i, on_client w i (fun c => step_refresh lhash c st
+                     match o with ORefresh _ _ r _ | ORoutedRefresh _ r _ => r | _ => mkResp [] None end
+                     match o with ORefresh _ _ _ n | ORoutedRefresh _ _ n => n | _ => 0%Z end) = (w', Ok stored) ->
+              exists vd rec, v = VDict vd /\ rec_of w i st = Some rec /\
+                (forall n, assoc (PS "nonce") vd = Some (VStr n) -> map_of w i n = Some st) /\
+                (forall before s, assoc (verified_name (PS "id_token")) rec = Some (VDict before) ->
+                   assoc (PS "sub") before = Some (VStr s) -> assoc (PS "sub") vd = Some (VStr s))).
+    { intros i Hon. apply on_client_inv in Hon as [(_ & _ & Hout)|(c & c' & Hi & Hf & Hw)]; [discriminate|].
+      destruct (step_refresh_accept lhash _ _ _ _ _ _ Hf) as (rec & rt & Hrec & _ & _ & Hver).
+      destruct (Hver v Hv) as (t & vd & _ & -> & _ & Hn & Hs).
+      exists vd, rec. split; [reflexivity|]. split; [unfold rec_of; rewrite Hi; apply db_get_assoc; exact Hrec|].
+      split; [|exact Hs]. intros n En. unfold map_of. rewrite Hi. apply Hn; exact En. }
+    destruct o as [i s0 nonce req|i r now|i s0 r now|i s0 u|s0 r now|i s0 r now|s0 r now|s0 u];
+      cbn [refresh_of] in Hr; inversion Hr; subst s0; cbn [step op_target] in *.
+    - destruct (Hcl i H) as (vd & rec & ? & ? & ? & ?). exists i, vd, rec. auto.
+    - destruct (state2issuer w st) as [[| | |i| | |]|]; try (inversion H; fail).
+      destruct (Hcl i H) as (vd & rec & ? & ? & ? & ?). exists i, vd, rec. auto.
+  Qed.
+End Backchannel.
 
 (* ================================================================================================
    hybrid / implicit front-channel responses (response types "code id_token", "code token",
